@@ -227,17 +227,17 @@ pub fn run(tier: Tier) -> i32 {
     let l = if thorough { 6 } else { 5 };
     let mut toks = std_tokens();
     toks.push("§");
-    let sw = Sweep { name: "strings-sym", tokens: toks, max_len: l, table: ut.clone() };
+    let sw = Sweep { name: "strings-sym", tokens: toks, max_len: l, table: ut.clone(), sep: " " };
     sweep_strings(&sw, &mut rep, &|text, _i, acc| {
         acc.evaluations -= 1;
         judge_text(&ls, text, "token-string", acc)
     });
-    let sw = Sweep { name: "strings-f64", tokens: vec!["(", ")", ",", "1", ".5", "x", "+", "-", "*", "max", "sin", "PI", "§"], max_len: if thorough { 6 } else { 5 }, table: lf.table.clone() };
+    let sw = Sweep { name: "strings-f64", tokens: vec!["(", ")", ",", "1", ".5", "x", "+", "-", "*", "max", "sin", "PI", "§"], max_len: if thorough { 6 } else { 5 }, table: lf.table.clone(), sep: " " };
     sweep_strings(&sw, &mut rep, &|text, _i, acc| {
         acc.evaluations -= 1;
         judge_text(&lf, text, "token-string", acc)
     });
-    let sw = Sweep { name: "strings-val", tokens: vec!["(", ")", ",", "1", "true", "x", "-", "==", "if", "else", "to_int", "§"], max_len: if thorough { 6 } else { 4 }, table: lv.table.clone() };
+    let sw = Sweep { name: "strings-val", tokens: vec!["(", ")", ",", "1", "true", "x", "-", "==", "if", "else", "to_int", "§"], max_len: if thorough { 6 } else { 4 }, table: lv.table.clone(), sep: " " };
     sweep_strings(&sw, &mut rep, &|text, _i, acc| {
         acc.evaluations -= 1;
         judge_text(&lv, text, "token-string", acc)
